@@ -38,32 +38,42 @@ Definition res_code (r : res unit) : Z := match r with Ok _ => 0 | Err e => cexn
 (* what the implementation showed after one assignment *)
 Record cobs := mkcobs { co_res : Z; co_state : cost; co_getters : spec }.
 
+(* one step of a walk: a value-level assignment, or a raw-level one (node value, attached?) *)
+Inductive cstep := SVal (o : cop) | SRaw (r : rop) (v : option Z) (att : bool).
+
 Record ccase := mkccase {
   cc_fixed : bool;          (* does the tree under test contain the D11 repair (probed by the harness) *)
+  cc_late : bool;           (* does it still flip the braces before consuming the node (probed) *)
   cc_listed : bool;         (* the initial text is one of the forms the property quantifies over *)
   cc_init : cost;           (* as parsed by the real Parser *)
   cc_init_getters : spec;
-  cc_steps : list (cop * cobs) }.
+  cc_steps : list (cstep * cobs) }.
 
-Fixpoint run_csteps (fixed : bool) (s : cost) (steps : list (cop * cobs)) : bool :=
+Definition do_step (fixed late : bool) (s : cost) (st : cstep) : cost * res unit :=
+  match st with
+  | SVal o => apply_gen fixed s o
+  | SRaw r v att => rapply_gen fixed late s r v att
+  end.
+
+Fixpoint run_csteps (fixed late : bool) (s : cost) (steps : list (cstep * cobs)) : bool :=
   match steps with
   | [] => true
   | (o, ob) :: r =>
-    let '(s', x) := apply_gen fixed s o in
+    let '(s', x) := do_step fixed late s o in
     (res_code x =? co_res ob) && cost_eqb s' (co_state ob) && spec_eqb (abs s') (co_getters ob)
-    && run_csteps fixed s' r
+    && run_csteps fixed late s' r
   end.
 
 Definition check_ccase (c : ccase) : bool :=
   (if cc_listed c then normal_b (cc_init c) else true)
   && spec_eqb (abs (cc_init c)) (cc_init_getters c)
-  && run_csteps (cc_fixed c) (cc_init c) (cc_steps c).
+  && run_csteps (cc_fixed c) (cc_late c) (cc_init c) (cc_steps c).
 
 (* diagnosis *)
-Fixpoint model_ctrace (fixed : bool) (s : cost) (ops : list cop) : list (Z * cost) :=
+Fixpoint model_ctrace (fixed late : bool) (s : cost) (ops : list cstep) : list (Z * cost) :=
   match ops with
   | [] => []
-  | o :: r => let '(s', x) := apply_gen fixed s o in (res_code x, s') :: model_ctrace fixed s' r
+  | o :: r => let '(s', x) := do_step fixed late s o in (res_code x, s') :: model_ctrace fixed late s' r
   end.
 
 (* CostSpec.from_value *)
